@@ -343,7 +343,9 @@ def _get_centering_constraint_from_matrix(matrix: numpy.ndarray) -> numpy.ndarra
     Args:
         matrix: The 2-d array design matrix.
     """
-    return matrix.mean(axis=0).reshape((1, matrix.shape[1]))
+    # Rows for null inputs (e.g. values nullified by `extrapolation="na"`) do
+    # not contribute to the constraint.
+    return numpy.nanmean(matrix, axis=0).reshape((1, matrix.shape[1]))
 
 
 def _absorb_constraints(
